@@ -1,9 +1,36 @@
 (* C08 — configuration survives encode/decode round trips.
    Only statements here; every proof is `exact <lemma of Proofs/C08_*.v>`. *)
 From Coq Require Import List ZArith.
-Require Import MTX.Lib.IntWrap MTX.Model.C08_Scalars MTX.Proofs.C08_Dec MTX.Proofs.C08_Codecs.
+Require Import MTX.Lib.IntWrap MTX.Model.C08_Scalars MTX.Proofs.C08_Dec MTX.Proofs.C08_Codecs MTX.Proofs.C08_Duration.
 Import ListNotations.
 Local Open Scope Z_scope.
+
+(* ---- Duration: unmarshalInternal (marshalInternal d) = d for every int64 but the minimum.
+   dur_marshal / dur_unmarshal transliterate duration.go together with time.Duration.String and
+   time.ParseDuration (leadingInt, leadingFraction with its float64 scale, unit table, overflow checks). *)
+Theorem C08_duration_roundtrip : forall d, - two63 < d < two63 -> dur_unmarshal (dur_marshal d) = Some d.
+Proof. exact dur_roundtrip. Qed.
+Print Assumptions C08_duration_roundtrip.
+
+(* time.ParseDuration (time.Duration.String u) = u, and with a leading '-' *)
+Theorem C08_parse_duration_string : forall u, 0 < u < two63 ->
+  parse_duration (dur_format_u u) = Some u /\ parse_duration (45 :: dur_format_u u) = Some (- u).
+Proof. exact parse_duration_format. Qed.
+Print Assumptions C08_parse_duration_string.
+
+(* the excluded value: Duration(-2^63) is written as "--23h47m16.854775808s", which is rejected *)
+Theorem C08_duration_min_int64_refuted :
+  dur_marshal (- two63) = [45;45;50;51;104;52;55;109;49;54;46;56;53;52;55;55;53;56;48;56;115] /\
+  dur_unmarshal (dur_marshal (- two63)) = None.
+Proof. exact dur_min_int64_refuted. Qed.
+Print Assumptions C08_duration_min_int64_refuted.
+
+Example C08_duration_examples :
+  dur_marshal 0 = [] /\ dur_marshal 1500000 = [49;46;53;109;115] /\
+  dur_marshal (- (3 * t_day + t_hour + 1)) = [45;51;100;49;104;48;109;48;46;48;48;48;48;48;48;48;48;49;115] /\
+  dur_unmarshal [45;51;100;49;104;48;109;48;46;48;48;48;48;48;48;48;48;49;115] = Some (- (3 * t_day + t_hour + 1)) /\
+  dur_unmarshal [49;46;53;104] = Some 5400000000000 /\ dur_unmarshal [53] = None.
+Proof. exact dur_examples. Qed.
 
 (* ---- StringSize.  The repaired MarshalJSON/UnmarshalJSON round-trip for every uint64, whatever the
    library formatter (bytefmt.ByteSize) and parser (bytefmt.ToBytes) do. *)
